@@ -37,6 +37,41 @@ fn main() {
             }
             0
         }
+        "sem" if args.len() >= 4 => {
+            // developer/audit tool: write SEM program <seed> into directory args[3]
+            let seed: u64 = args[2].parse().unwrap_or(1);
+            let mut rng = fw::Rng::new(seed);
+            let opts = if args.get(4).map(|s| s == "probes").unwrap_or(false) { gen::sem::Opts::WithProbes } else { gen::sem::Opts::Clean };
+            let p = gen::sem::program(&mut rng, opts);
+            std::fs::create_dir_all(&args[3]).unwrap();
+            for (name, text) in &p.files {
+                std::fs::write(std::path::Path::new(&args[3]).join(name), text).unwrap();
+            }
+            0
+        }
+        "query" if args.len() >= 4 => {
+            // developer tool: vcheck query <dir> <offset> : root.td in dir, prints definition/refs/hover/diags
+            let dir = std::path::Path::new(&args[2]);
+            let mut files = Vec::new();
+            for e in std::fs::read_dir(dir).unwrap().flatten() {
+                let n = e.file_name().to_string_lossy().to_string();
+                if n.ends_with(".td") {
+                    files.push((n, std::fs::read_to_string(e.path()).unwrap()));
+                }
+            }
+            let w = ws::Workspace::new(&files, "root.td");
+            let a = w.analysis();
+            let off: usize = args[3].parse().unwrap_or(0);
+            println!("definition: {:?}", a.goto_definition(ws::pos(w.root, off)));
+            println!("references: {:?}", a.references(ws::pos(w.root, off)));
+            println!("hover: {:?}", a.hover(ws::pos(w.root, off)));
+            for (f, ds) in a.diagnostics() {
+                for d in ds {
+                    println!("diag {:?} {:?} {}", w.fs.path_of(f), d.location.range, d.message);
+                }
+            }
+            0
+        }
         "run" if args.len() >= 4 => sup::parent_main(find(&args[2]), tier(&args[3])),
         "child" if args.len() >= 6 => sup::child_main(find(&args[2]), tier(&args[3]), Path::new(&args[4]), Path::new(&args[5])),
         "trace" if args.len() >= 7 => {
